@@ -674,3 +674,26 @@ Proof.
   assert (IL : is_locked (S lf') (hp (fst (alloc_node s1 nd'))) (nxt s1) = Some false) by (cbn [is_locked]; rewrite Ec; reflexivity).
   rewrite IL in LK. eapply plock_flag_self; [exact LK|exact Ec].
 Qed.
+
+(* ---------------------------------------------------------------------------------------------- lock_ covers the tree *)
+Theorem lock_covers_tree : forall fuel s r s',
+  Inv s -> exists_live s r = true ->
+  (is_locked fuel (hp s) r = Some false \/ (flag_true (hp s) r = true /\ no_mm (hp s) r)) ->
+  step fuel s (OLock r) = Some (s', Done) ->
+  tree_locked (hp s') r /\ tree_unchanged (hp s) (hp s') r.
+Proof.
+  intros fuel s r s' HI X Pre H. cbn [step] in H. rewrite X in H. cbn [negb] in H.
+  destruct (lock_ fuel (hp s) r) as [h|] eqn:L; [|discriminate]. inversion H. subst s'. cbn.
+  pose proof (lock_grows _ _ _ _ L) as G.
+  split; [|intros x _; apply G].
+  destruct Pre as [IL|[F NM]].
+  - unfold lock_ in L. rewrite IL in L. intros x R.
+    assert (R0 : Reach (hp s) r x) by (eapply same_struct_reach; [apply same_struct_sym; apply G|exact R]).
+    eapply plock_reach_flag; [exact L|exact R0|].
+    apply exists_live_spec in X. destruct X as [Xr _].
+    clear - R0 Xr HI. induction R0 as [n|n c m Hc _ IH]; [exact Xr|]. apply IH.
+    destruct (inv_closed _ HI) as [C1 _]. eapply C1. exact Hc.
+  - apply exists_live_spec in X. destruct X as [_ Lr].
+    destruct (tree_locked_of_root s r HI F Lr NM) as [TL _].
+    intros x R. eapply grows_flag; [exact G|]. apply TL. eapply same_struct_reach; [apply same_struct_sym; apply G|exact R].
+Qed.
